@@ -41,6 +41,7 @@ impl Prop for C05 {
         cfg.max_items = 12;
         cfg.define_via = campaign == "expand" && t.chance(1, 4);
         cfg.body_escaped_first = true;
+        cfg.body_string_corners = true;
         let case = gen_case(ctx, t, &cfg)?;
         let o = compare_with_model(ctx, "C05", case, st)?;
         let ms = &o.model.stats;
